@@ -86,9 +86,15 @@ def interpolate (a b t : α) : α :=
   let t := if 1 < t then 1 else t
   t * b + (1 - t) * a
 
+/-- `clamped_mean`: `c.mean().max(min).min(max)` -/
+def clampedMean (mn mx : α) (c : Centroid α) : α :=
+  let m := c.mean
+  let m := if m < mn then mn else m
+  if mx < m then mx else m
+
 /-- the centroid loop of `quantile`: `some r` = returned from inside the loop, `none` = fell through
 (right tail); the inner `Option` is `none` when the `i > 0` assertion / index underflow fires -/
-def quantileLoop (limit : α) : List (Centroid α) → Option (Centroid α) → α → Option (Option α) × α
+def quantileLoop (mn mx limit : α) : List (Centroid α) → Option (Centroid α) → α → Option (Option α) × α
   | [], _, cum => (none, cum)
   | c :: rest, prev, cum =>
     if limit ≤ cum + c.count * half then
@@ -97,8 +103,8 @@ def quantileLoop (limit : α) : List (Centroid α) → Option (Centroid α) → 
       | some cl =>
         let cum' := cum - half * cl.count
         let delta := half * (cl.count + c.count)
-        (some (some (interpolate cl.mean c.mean ((limit - cum') / delta))), cum)
-    else quantileLoop limit rest (some c) (cum + c.count)
+        (some (some (interpolate (clampedMean mn mx cl) (clampedMean mn mx c) ((limit - cum') / delta))), cum)
+    else quantileLoop mn mx limit rest (some c) (cum + c.count)
 
 inductive QRes (α : Type) where
   | nan
@@ -113,9 +119,9 @@ def quantileInner (s : St α) (q : α) : QRes α :=
     let total := totalCount s.centroids
     let limit := total * q
     if limit ≤ c0.count * half then
-      .val (interpolate mn c0.mean (limit / (half * c0.count)))
+      .val (interpolate mn (clampedMean mn mx c0) (limit / (half * c0.count)))
     else
-      match quantileLoop limit s.centroids none 0 with
+      match quantileLoop mn mx limit s.centroids none 0 with
       | (some (some v), _) => .val v
       | (some none, _) => .panic
       | (none, cum) =>
@@ -124,19 +130,20 @@ def quantileInner (s : St α) (q : α) : QRes α :=
         | some cl =>
           let cum' := cum - half * cl.count
           let delta := half * cl.count
-          .val (interpolate cl.mean mx ((limit - cum') / delta))
+          .val (interpolate (clampedMean mn mx cl) mx ((limit - cum') / delta))
   | _ :: _, _, _ => .panic   -- unreachable: centroids non-empty implies min/max set
 
 /-- the centroid loop of `cdf` -/
-def cdfLoop (x total : α) : List (Centroid α) → α → α → α → Option α × α × α
+def cdfLoop (mn mx x total : α) : List (Centroid α) → α → α → α → Option α × α × α
   | [], _, lastMean, lastCum => (none, lastMean, lastCum)
   | c :: rest, cum, lastMean, lastCum =>
     let currentCum := cum + half * c.count
-    if x < c.mean then
-      let delta := c.mean - lastMean
+    let mean := clampedMean mn mx c
+    if x < mean then
+      let delta := mean - lastMean
       let t := (x - lastMean) / delta
       (some (interpolate lastCum currentCum t / total), lastMean, lastCum)
-    else cdfLoop x total rest (cum + c.count) c.mean currentCum
+    else cdfLoop mn mx x total rest (cum + c.count) mean currentCum
 
 /-- `TDigestInner::cdf` on a merged digest; `none` = assertion panic -/
 def cdfInner (s : St α) (x : α) : Option α :=
@@ -145,7 +152,7 @@ def cdfInner (s : St α) (x : α) : Option α :=
   | _ :: _, some mn, some mx =>
     if x < mn then some 0 else
     let total := totalCount s.centroids
-    match cdfLoop x total s.centroids 0 mn 0 with
+    match cdfLoop mn mx x total s.centroids 0 mn 0 with
     | (some r, _, _) => some r
     | (none, lastMean, lastCum) =>
       if x < mx then
